@@ -770,3 +770,167 @@ Definition model_decl (a : attr) (eps : list (res N oep)) (unv : list oroute)
             end) styles ops
       end end) probes.
 
+
+(* ====================================================================== *)
+(* Trait-level tag configuration: the [tag_config] argument of
+   [#[dropshot::api_description]].
+
+     dropshot_endpoint/src/api_trait.rs   ApiTagConfig (serde defaults),
+                                          SupportModuleGenerator::make_tag_config,
+                                          make_api_factory_body
+     dropshot/src/api_description.rs      TagConfig (+ Default), ApiDescription::new,
+                                          tag_config, register -> validate_tags *)
+
+Inductive tag_policy := TPAny | TPAtLeastOne | TPExactlyOne.
+
+(* [TagDetails]: description, external_docs = (description, url) *)
+Record tag_details := mkTagDetails {
+  td_description : option str;
+  td_external_docs : option (option str * str)
+}.
+
+(* [TagConfig]; the HashMap as an association list sorted by tag name *)
+Record tag_config := mkTagConfig {
+  tc_allow_other_tags : bool;
+  tc_policy : tag_policy;
+  tc_tags : list (str * tag_details)
+}.
+
+(* the [tag_config = { .. }] argument ([ApiTagConfig]): [tags] is required,
+   [allow_other_tags] and [policy] may be left out *)
+Record tc_arg := mkTcArg {
+  ta_allow_other_tags : option bool;
+  ta_policy : option tag_policy;
+  ta_tags : list (str * tag_details)
+}.
+
+(* [impl Default for TagConfig] — what [ApiDescription::new()] carries *)
+Definition default_tag_config : tag_config := mkTagConfig true TPAny [].
+
+(* [make_tag_config]: no argument, no [.tag_config(..)] call; otherwise
+   [TagConfig { allow_other_tags (#[serde(default)]: false), policy (or
+   EndpointTagPolicy::Any), tags }] — the value the generated
+   [api_description()] / [stub_api_description()] start from *)
+Definition trait_tag_config (arg : option tc_arg) : tag_config :=
+  match arg with
+  | None => default_tag_config
+  | Some t =>
+      mkTagConfig (match ta_allow_other_tags t with Some b => b | None => false end)
+                  (match ta_policy t with Some p => p | None => TPAny end)
+                  (ta_tags t)
+  end.
+
+Inductive tag_err :=
+| TENeedOne              (* "At least one tag is required" *)
+| TEExactlyOne           (* "Exactly one tag is required" *)
+| TEInvalid (t : str).   (* "Invalid tag: .." *)
+
+Definition has_tag (c : tag_config) (t : str) : bool :=
+  existsb (fun kv => str_eqb (fst kv) t) (tc_tags c).
+
+(* [ApiDescription::validate_tags], arm by arm *)
+Definition validate_tags (c : tag_config) (e : endpoint) : res tag_err unit :=
+  if negb (e_visible e) then Ok tt else
+  let pol :=
+    match tc_policy c with
+    | TPAtLeastOne => if is_nil (e_tags e) then Some TENeedOne else None
+    | TPExactlyOne => if (length (e_tags e) =? 1)%nat then None else Some TEExactlyOne
+    | TPAny => None
+    end in
+  match pol with
+  | Some x => Err x
+  | None =>
+      if tc_allow_other_tags c then Ok tt
+      else match find (fun t => negb (has_tag c t)) (e_tags e) with
+           | Some t => Err (TEInvalid t)
+           | None => Ok tt
+           end
+  end.
+
+(* [make_api_factory_body]: every endpoint is registered in turn and the
+   failures are collected; the description is returned iff there is none.
+   (Only the tag check is modelled here; the other registration checks do not
+   depend on the tag configuration.) *)
+Definition build_errors (c : tag_config) (eps : list endpoint) : list (str * tag_err) :=
+  flat_map (fun e => match validate_tags c e with
+                     | Err x => [(e_opid e, x)]
+                     | Ok _ => []
+                     end) eps.
+
+(* ---- the declarative reading ---- *)
+
+(* an endpoint complies with a configuration: unpublished endpoints are
+   exempt; otherwise the number of tags fits the policy and, unless other tags
+   are allowed, every tag is a configured one *)
+Definition policy_ok (p : tag_policy) (tags : list str) : bool :=
+  match p with
+  | TPAny => true
+  | TPAtLeastOne => negb (is_nil tags)
+  | TPExactlyOne => (length tags =? 1)%nat
+  end.
+Definition complies (c : tag_config) (tags : list str) (visible : bool) : bool :=
+  negb visible || (policy_ok (tc_policy c) tags
+                   && (tc_allow_other_tags c || forallb (has_tag c) tags)).
+
+(* ---- observation and executable specification ---- *)
+
+Definition policy_eqb (a b : tag_policy) : bool :=
+  match a, b with
+  | TPAny, TPAny | TPAtLeastOne, TPAtLeastOne | TPExactlyOne, TPExactlyOne => true
+  | _, _ => false
+  end.
+Definition details_eqb (a b : tag_details) : bool :=
+  ostr_eqb (td_description a) (td_description b)
+  && option_eqb (fun x y => ostr_eqb (fst x) (fst y) && str_eqb (snd x) (snd y))
+       (td_external_docs a) (td_external_docs b).
+Definition tag_config_eqb (a b : tag_config) : bool :=
+  bool_eqb (tc_allow_other_tags a) (tc_allow_other_tags b)
+  && policy_eqb (tc_policy a) (tc_policy b)
+  && list_eqb (fun x y => str_eqb (fst x) (fst y) && details_eqb (snd x) (snd y))
+       (tc_tags a) (tc_tags b).
+
+Definition tag_err_code (x : tag_err) : N :=
+  match x with TENeedOne => 1 | TEExactlyOne => 2 | TEInvalid _ => 3 end.
+
+(* what the declaration says the configuration is: absent = anything goes;
+   given = the written fields, [allow_other_tags] false and [policy] Any when
+   left out (documented defaults) *)
+Definition declared_tag_config (arg : option tc_arg) : tag_config :=
+  match arg with
+  | None => mkTagConfig true TPAny []
+  | Some t =>
+      mkTagConfig (match ta_allow_other_tags t with Some b => b | None => false end)
+                  (match ta_policy t with Some p => p | None => TPAny end)
+                  (ta_tags t)
+  end.
+
+(* spec: [cfgs] = get_tag_config() of the description built from the
+   implementation and from the stub (None: could not be built); [refused] =
+   per style (functions on an ApiDescription carrying the declared TagConfig,
+   trait implementation, trait stub) the refused operation ids with the kind
+   of refusal, in declaration order.  The declared configuration is in force:
+   field by field, and an endpoint is refused iff it does not comply. *)
+Definition spec_tagcfg (arg : option tc_arg) (eps : list attr)
+           (cfgs : list (option tag_config)) (refused : list (list (str * N)))
+           (docs_same : bool) : bool :=
+  let c := declared_tag_config arg in
+  forallb (fun o => match o with Some c' => tag_config_eqb c' c | None => false end) cfgs
+  && forallb (fun r =>
+       strs_eqb (map fst r)
+         (map declared_opid
+            (filter (fun a => negb (complies c (a_tags a) (negb (a_unpublished a)))) eps)))
+       refused
+  && all_eq (list_eqb (fun x y => str_eqb (fst x) (fst y) && (snd x =? snd y))) refused
+  && docs_same.
+
+Definition model_tagcfg (arg : option tc_arg) (eps : list attr)
+           (cfgs : list (option tag_config)) (refused : list (list (str * N))) : bool :=
+  let c := trait_tag_config arg in
+  forallb (fun o => match o with Some c' => tag_config_eqb c' c | None => false end) cfgs
+  && forallb2 (fun st r =>
+       match map_opt (fun a => match expand st a with Ok e => Some e | Err _ => None end) eps with
+       | Some es =>
+           list_eqb (fun x y => str_eqb (fst x) (fst y) && (snd x =? snd y)) r
+             (map (fun p => (fst p, tag_err_code (snd p))) (build_errors c es))
+       | None => false
+       end) styles refused.
